@@ -26,6 +26,9 @@ def table():
 def absorb(log):
     """thorough_summary.json from the one-line summaries of `bin/runall thorough`"""
     th = {}
+    p = os.path.join(V, "thorough_summary.json")
+    if os.path.exists(p):
+        th = json.load(open(p))      # a log of some checks only updates those
     for l in open(log):
         m = re.match(r"(C\d+) rc=(\d+) (\d+)s (\d+) viol (\d+) known \| C\d+ thorough: (\d+) cases, (\d+) judged events", l)
         if m:
